@@ -451,7 +451,9 @@ func (k *Kernel) tsHandlePending(p *tsPending) {
 		cn := p.conn
 		h := map[string]string{}
 		for n, vs := range p.req.Header {
-			h[n] = strings.Join(vs, ", ")
+			// header values are byte strings: hand them to JS as latin1 code points (what a
+			// Node HTTP server does), not as UTF-8 text
+			h[n] = latin1(strings.Join(vs, ", "))
 		}
 		evs, err := b.Send(map[string]any{"t": "serve", "world": k.W.Name, "sid": cn.id, "method": p.req.Method, "url": p.req.RequestURI,
 			"headers": h, "body": base64.StdEncoding.EncodeToString(p.reqBody), "hasBody": len(p.reqBody) > 0 || p.req.ContentLength > 0})
@@ -653,4 +655,22 @@ func jsonErrField(msg string, m proto.Message) string {
 		return string(fd.Name())
 	}
 	return ""
+}
+
+func latin1(s string) string {
+	ascii := true
+	for i := 0; i < len(s); i++ {
+		if s[i] >= 0x80 {
+			ascii = false
+			break
+		}
+	}
+	if ascii {
+		return s
+	}
+	r := make([]rune, 0, len(s))
+	for i := 0; i < len(s); i++ {
+		r = append(r, rune(s[i]))
+	}
+	return string(r)
 }
